@@ -1,5 +1,5 @@
 """C02 — committed containers are never modified again (frames and effect order of the record life cycle)."""
-from . import hashing, manifest, record
+from . import hashing, manifest, naming, record, ublock
 
 
 def build(reg):
@@ -7,9 +7,11 @@ def build(reg):
     record.add_open_bindings(reg)
     specs = record.add_lifecycle(reg)
     specs += manifest.add_manifest(reg)
+    specs += ublock.add_ublock(reg)  # the bodies behind the user-block contracts the life cycle calls (verified on their own, not registered as callees)
+    specs += [x for x in naming.add_naming(reg) if x.qual.endswith('_infer_name')]
     return {
         "verify": specs,
         "lemmas": [],
-        "trusted": hashing.TRUSTED + [record.T1_OPEN, record.T1_X, record.T2_UNLINK, record.T3_HEX, record.T5_UB, record.T6_UUID, manifest.T5_MF],
-        "assumptions": ["IH5UserBlock.save rewrites only bytes of the user-block area of the named file (contract assumed here; its body is checked bounded in C11 torn-write enumeration)", "_next_patch_filepath returns some path; freshness is not needed because _new_container uses mode 'x'"],
+        "trusted": hashing.TRUSTED + [record.T1_OPEN, record.T1_X, record.T2_UNLINK, record.T3_HEX, record.T5_UB, record.T6_UUID, manifest.T5_MF] + ublock.T_UB,
+        "assumptions": ["IH5UserBlock.save / create are callee contracts in the life-cycle functions; their bodies are verified separately in this check (UbSaveBody, UbCreateBody) against the same statements", "_next_patch_filepath returns some path in the life-cycle contracts (its text is under contract in C03); freshness is not needed because _new_container uses mode 'x'"],
     }
